@@ -3,9 +3,12 @@
 package signaling
 
 import (
+	"encoding/json"
 	"fmt"
+	"os"
 	"sync"
 	"testing"
+	"time"
 )
 
 // hdStressLimit: registrations racing for the last free slot of a limited backend, with real parallelism.
@@ -84,4 +87,325 @@ func hdStressLimit(t *testing.T, env verifEnv, sink *caseSink) {
 		}
 	}
 	sink.count("stress_limit_rounds")
+}
+
+// hdStressResume: a resume hello on a new connection racing with the end of the session, with real parallelism.
+// In the model a hello is one atomic step: the hub looks the session up and attaches the connection in one critical
+// section, so a session that ends concurrently ends either before (the resume is refused, the connection stays
+// without session) or after (the session was attached and is then closed like any other). This exercises that
+// assumption on the real hub: many rounds of "processHello(resume) on connection 2" against
+//   kind 0: housekeeping at a time at which the (disconnected) session is due,
+//   kind 1: a bye on the connection the session still has (the resume is a takeover),
+//   kind 2: a disinvite of the session by its backend (room API),
+// both released at the same instant, the second after a delay that is steered towards the point where the two
+// outcomes are equally likely. Each round is judged on the hub's own tables after both have finished:
+//   * no entry of the clients table names a session that is not in the session table (C07: nothing left behind);
+//   * the new connection holds no session that is not in the session table - a hello reply for such a session
+//     authenticates the connection for a session that does not exist (C01: "the private id of a LIVE session");
+//   * a refused resume leaves the connection without session; an accepted one names the session that was resumed,
+//     and when that session is still there it is attached to exactly the new connection, in the clients table,
+//     not in the expiry list.
+// Outcomes in which the session was attached and then closed by the racing end (which had already begun) are
+// counted, not judged. A test, not a proof; a failing round is a direct violation with the round as replay.
+func hdStressResume(t *testing.T, env verifEnv, sink *caseSink) {
+	rounds := 480
+	if env.thorough() {
+		rounds = 6000
+	}
+	if v := os.Getenv("VERIF_STRESS_ROUNDS"); v != "" {
+		fmt.Sscanf(v, "%d", &rounds)
+	}
+	sys := newHdSystem(t, []hdBackendCfg{{}, {}})
+	defer sys.close()
+	sys.asyncBus = true
+	hub := sys.hub
+	serverClient := func(idx int) HandlerClient {
+		for deadline := time.Now().Add(2 * time.Second); time.Now().Before(deadline); time.Sleep(50 * time.Microsecond) {
+			var found HandlerClient
+			hub.mu.RLock()
+			for c := range hub.expectHelloClients {
+				if sys.connIndex(c) == idx {
+					found = c
+				}
+			}
+			hub.mu.RUnlock()
+			if found != nil {
+				return found
+			}
+		}
+		return nil
+	}
+	waitIdle := func() {
+		n := 0
+		for deadline := time.Now().Add(2 * time.Second); time.Now().Before(deadline) && n < 2; {
+			if sys.backend.inflight.Load() == 0 && sys.idleDump() {
+				n++
+			} else {
+				n = 0
+				time.Sleep(100 * time.Microsecond)
+			}
+		}
+	}
+	spin := func(d time.Duration) {
+		for end := time.Now().Add(d); time.Now().Before(end); {
+		}
+	}
+	type verdict struct {
+		bad  string
+		info map[string]interface{}
+	}
+	// delay of the ender relative to the resume (negative: the resume is delayed), steered per kind
+	delay := []time.Duration{0, 0, 0}
+	step := []time.Duration{40 * time.Microsecond, 40 * time.Microsecond, 40 * time.Microsecond}
+	bad, maxBad := 0, 3
+	if v := os.Getenv("VERIF_STRESS_MAXBAD"); v != "" {
+		fmt.Sscanf(v, "%d", &maxBad) // development: measure the hit rate
+	}
+	outcomes := map[string]int{}
+	for round := 0; round < rounds && bad < maxBad; round++ {
+		kind := round % 3
+		i1, i2 := 2*round+1, 2*round+2
+		addr := fmt.Sprintf("10.%d.%d.%d", 1+round/62500, (round/250)%250, 1+round%250)
+		c1 := sys.connect(i1, addr)
+		hello, _ := json.Marshal(map[string]interface{}{"id": "h", "type": "hello", "hello": map[string]interface{}{"version": "1.0",
+			"auth": map[string]interface{}{"url": sys.backendUrl(0) + "/ocs/v2.php/apps/spreed/api/v1/signaling/backend", "params": map[string]interface{}{"u": hdUser(1 + round%3), "reject": false}}}})
+		if c1.send(hello) != nil || !c1.waitForId("h", 5*time.Second) {
+			t.Fatalf("resume stress round %d: no hello reply", round)
+		}
+		var resumeId, publicId string
+		msgs, _ := c1.take()
+		for _, m := range msgs {
+			var sm ServerMessage
+			if json.Unmarshal(m, &sm) == nil && sm.Type == "hello" && sm.Hello != nil {
+				resumeId, publicId = sm.Hello.ResumeId, sm.Hello.SessionId
+			}
+		}
+		if resumeId == "" {
+			t.Fatalf("resume stress round %d: hello refused", round)
+		}
+		sess, _ := hub.GetSessionByPublicId(publicId).(*ClientSession)
+		if sess == nil {
+			t.Fatalf("resume stress round %d: session not found", round)
+		}
+		sid := sess.Data().Sid
+		sc1 := sess.GetClient()
+		c2 := sys.connect(i2, addr)
+		sc2 := serverClient(i2)
+		if sc2 == nil || sc1 == nil {
+			t.Fatalf("resume stress round %d: server side of the connection not found", round)
+		}
+		var ender func()
+		switch kind {
+		case 0:
+			c1.conn.Close()
+			<-c1.gone
+			for deadline := time.Now().Add(2 * time.Second); time.Now().Before(deadline); time.Sleep(50 * time.Microsecond) {
+				hub.mu.RLock()
+				_, waiting := hub.expiredSessions[sess]
+				hub.mu.RUnlock()
+				if waiting && sess.GetClient() == nil {
+					break
+				}
+			}
+			ender = func() { hub.performHousekeeping(time.Now().Add(sessionExpireDuration + time.Second)) }
+		case 1:
+			ender = func() { hub.OnMessageReceived(sc1, []byte(`{"id":"b","type":"bye","bye":{}}`)) }
+		default:
+			sys.backend.mu.Lock()
+			sys.backend.roomReply = hdRoomReply{}
+			sys.backend.mu.Unlock()
+			rs := fmt.Sprintf("ncsession%d", 500000+round)
+			join, _ := json.Marshal(map[string]interface{}{"id": "j", "type": "room", "room": map[string]interface{}{"roomid": hdRoom(1 + round%2), "sessionid": rs}})
+			if c1.send(join) != nil || !c1.waitForId("j", 5*time.Second) {
+				t.Fatalf("resume stress round %d: no reply to the join", round)
+			}
+			for sys.events.pending() > 0 {
+				sys.events.deliver("")
+			}
+			body, _ := json.Marshal(map[string]interface{}{"type": "disinvite", "disinvite": map[string]interface{}{"userids": []string{}, "sessionids": []string{rs}, "alluserids": []string{}}})
+			if code := sys.roomApi(0, 0, hdRoom(1+round%2), body); code != 200 {
+				t.Fatalf("resume stress round %d: room API answered %d", round, code)
+			}
+			// the request is on the bus now: its delivery tells the session and closes it
+			ender = func() {
+				for sys.events.pending() > 0 {
+					sys.events.deliver("")
+				}
+			}
+		}
+		// the housekeeping of kind 0 runs at a time in the future: the new connection is not to be timed out by it
+		hub.mu.Lock()
+		if _, ok := hub.expectHelloClients[sc2]; ok {
+			hub.expectHelloClients[sc2] = time.Now().Add(time.Hour)
+		}
+		hub.mu.Unlock()
+		waitIdle()
+		resume, _ := json.Marshal(map[string]interface{}{"id": "r", "type": "hello", "hello": map[string]interface{}{"version": "1.0", "resumeid": resumeId}})
+		start := make(chan struct{})
+		var wg sync.WaitGroup
+		wg.Add(2)
+		d := delay[kind]
+		go func() {
+			defer wg.Done()
+			<-start
+			if d < 0 {
+				spin(-d)
+			}
+			hub.OnMessageReceived(sc2, resume)
+		}()
+		go func() {
+			defer wg.Done()
+			<-start
+			if d > 0 {
+				spin(d)
+			}
+			ender()
+		}()
+		close(start)
+		wg.Wait()
+		// the hello was processed synchronously: its reply, if one was written, is on the wire
+		c2.waitForId("r", 150*time.Millisecond)
+		waitIdle()
+		// what the new connection was told
+		var gotSid, gotErr string
+		m2, _ := c2.take()
+		for _, m := range m2 {
+			var sm ServerMessage
+			if json.Unmarshal(m, &sm) != nil || sm.Id != "r" {
+				continue
+			}
+			if sm.Type == "hello" && sm.Hello != nil {
+				gotSid = sm.Hello.SessionId
+			} else if sm.Type == "error" && sm.Error != nil {
+				gotErr = sm.Error.Code
+			}
+		}
+		judge := func() *verdict {
+			hub.mu.RLock()
+			defer hub.mu.RUnlock()
+			info := map[string]interface{}{"round": round, "kind": []string{"housekeeping with the session due", "bye on the session's connection", "disinvite by the backend"}[kind],
+				"delay_us": d.Microseconds(), "hello_reply_sid": gotSid != "", "error": gotErr}
+			for csid := range hub.clients {
+				if _, ok := hub.sessions[csid]; !ok {
+					info["stale_clients_entry"] = csid
+					if csid == sid && gotSid != "" {
+						return &verdict{fmt.Sprintf("the hello reply of the resume names session %d, which was not a live session any more when the connection was attached: it is not in the session table, and the clients table keeps an entry for it", csid), info}
+					}
+					return &verdict{fmt.Sprintf("the clients table has an entry for session %d which is not in the session table (a connection was attached to a session that had ended)", csid), info}
+				}
+			}
+			live, isLive := hub.sessions[sid]
+			bound := sc2.GetSession()
+			if bound != nil {
+				if cur, ok := hub.sessions[bound.Data().Sid]; !ok || cur != bound {
+					return &verdict{"the connection that asked to resume holds a session that is not in the hub's session table (hello reply for a session that is not live)", info}
+				}
+			}
+			switch {
+			case gotErr != "":
+				if gotErr != "no_such_session" {
+					return &verdict{"resume refused with " + gotErr, info}
+				}
+				if bound != nil {
+					return &verdict{"the resume was refused and the connection has a session", info}
+				}
+			case gotSid != "":
+				if gotSid != publicId {
+					return &verdict{"the hello reply of the resume names another session", info}
+				}
+				if isLive {
+					_, expiring := hub.expiredSessions[live]
+					if bound != live || hub.clients[sid] != sc2 || expiring || live.(*ClientSession).GetClient() != sc2 {
+						info["bound"], info["in_clients"], info["expiring"] = bound == live, hub.clients[sid] == sc2, expiring
+						return &verdict{"the resumed session is live and not attached to exactly the new connection (connection, clients table, expiry list)", info}
+					}
+				}
+			default:
+				// no reply: the session was attached and ended before the hello reply was written (the reply went into
+				// the queue of the closed session). The connection must be without session then.
+				if bound != nil {
+					return &verdict{"the resume was not answered and the connection has a session", info}
+				}
+			}
+			return nil
+		}
+		v := judge()
+		if v != nil {
+			// a goroutine of the server may still be finishing the end of the session: judge again after a pause
+			time.Sleep(30 * time.Millisecond)
+			waitIdle()
+			v = judge()
+		}
+		_, isLive := func() (Session, bool) { hub.mu.RLock(); defer hub.mu.RUnlock(); s, ok := hub.sessions[sid]; return s, ok }()
+		out := "refused"
+		if gotSid == "" && gotErr == "" {
+			out = "attached_then_ended_unanswered"
+		} else if gotSid != "" && isLive {
+			out = "resumed"
+		} else if gotSid != "" {
+			out = "resumed_then_ended"
+		}
+		outcomes[fmt.Sprintf("%d_%s", kind, out)]++
+		if v != nil {
+			bad++
+			sink.violation(7200000+round, "resume racing the end of the session: "+v.bad, v.info)
+			outcomes[fmt.Sprintf("%d_VIOLATION", kind)]++
+			if maxBad > 3 {
+				hub.mu.Lock()
+				for csid := range hub.clients {
+					if _, ok := hub.sessions[csid]; !ok {
+						delete(hub.clients, csid)
+					}
+				}
+				hub.mu.Unlock()
+			}
+		}
+		// steer towards the boundary between "the end came first" and "the resume came first"
+		if gotSid == "" {
+			delay[kind] += step[kind] // the end won: start it later
+		} else {
+			delay[kind] -= step[kind]
+		}
+		if round%60 == 59 && step[kind] > 2*time.Microsecond {
+			step[kind] = step[kind] * 3 / 4
+		}
+		if round > 600 && round%7 == 0 {
+			// leave the boundary now and then: other schedules
+			delay[kind] += time.Duration(round%41-20) * time.Microsecond
+		}
+		c1.conn.Close()
+		c2.conn.Close()
+		delete(sys.clients, i1)
+		delete(sys.clients, i2)
+		// the bus is not delivered in this scenario: forget what was published
+		for sys.events.pending() > 0 {
+			sys.events.deliver("")
+		}
+		if round%50 == 49 {
+			// sessions left over (resumed ones whose connection was closed above) end here
+			waitIdle()
+			hub.performHousekeeping(time.Now().Add(sessionExpireDuration + time.Second))
+		}
+	}
+	for k, n := range outcomes {
+		for i := 0; i < n; i++ {
+			sink.count("stress_resume_" + k)
+		}
+	}
+	sink.count("stress_resume_rounds")
+}
+
+// TestVerifHubResumeStress: the resume stress alone (development aid; VERIF_STRESS_ROUNDS chooses the number of rounds)
+func TestVerifHubResumeStress(t *testing.T) {
+	env := getVerifEnv(t, "C01")
+	hdQuiet()
+	sink := newCaseSink(t, env, "C01", "corr.Run_C01", 10)
+	sink.scope = "N_scope"
+	start := time.Now()
+	hdStressResume(t, env, sink)
+	t.Logf("took %s; histogram %v; violations %d", time.Since(start), sink.stats.Histogram, len(sink.stats.DirectViolations))
+	for _, v := range sink.stats.DirectViolations {
+		t.Logf("violation %d: %s %v", v.Id, v.What, v.Case)
+	}
+	sink.close("resume stress alone")
 }
